@@ -11,11 +11,11 @@ from ..runner import Exploration, Failure
 STREAMS = {
     # ops the engine issues are observed by a user-level probe mixin placed first; Lean model runs on
     # the same ops (`runGroup`), the oracle judges every op
-    'ops': dict(classes=feat.CLASSES, probe=True, featureless=False, quick=(16, 700), thorough=(64, 3500)),
+    'ops': dict(classes=feat.CLASSES, probe=True, featureless=False, quick=(16, 700), thorough=(64, 2000)),
     # flat machines without any probe: Lean flat layer (`trigger`) against the public API only
-    'flat': dict(classes=feat.CLASSES[:2], probe=False, featureless=False, quick=(16, 350), thorough=(32, 3500)),
+    'flat': dict(classes=feat.CLASSES[:2], probe=False, featureless=False, quick=(16, 350), thorough=(32, 2000)),
     # decorated vs plain machine on states that carry no feature arguments
-    'diff': dict(classes=feat.CLASSES, probe=False, featureless=True, quick=(16, 150), thorough=(32, 1500)),
+    'diff': dict(classes=feat.CLASSES, probe=False, featureless=True, quick=(16, 150), thorough=(32, 800)),
 }
 
 
@@ -185,7 +185,8 @@ class C19(runner.Check):
              "is an input (C01-C03 cover it). Timeout is C17's. Order-dependent combinations (failed retry or Error "
              "raise vs Volatile creation) are mirrored by the model, not judged.",
         technique="Lean 4 proof (induction over op histories, invariants) + differential correspondence + Python oracle")
-    theorems = ('TM.C19_tags', 'TM.C19_error_iff', 'TM.C19_volatile_fresh', 'TM.C19_volatile_removed',
+    theorems = ('TM.C19_tags', 'TM.C19_tags_built_partial', 'TM.C19_tags_built_counterexample',
+                'TM.C19_error_counterexample', 'TM.C19_error_iff', 'TM.C19_volatile_fresh', 'TM.C19_volatile_removed',
                 'TM.C19_volatile_history', 'TM.C19_retry_exact', 'TM.C19_retry_unlimited', 'TM.C19_per_model_frame', 'TM.C19_per_model',
                 'TM.C19_feature_free_unchanged', 'TM.C19_flat_trigger')
     rule = ('random decorated machine classes: every subset of {Tags, Error, Volatile, Retry} in random decorator order '
@@ -239,11 +240,15 @@ class C19(runner.Check):
             ex.merge(part)
         done = set()
         keep = []
+        known_sigs = set(k.get('signature') for k in self.known())
         for f in ex.failures:
             key = (f.kind, f.what, f.signature)
             if key in done:
                 continue
             done.add(key)
+            if f.kind == 'monitor' and f.signature in known_sigs:
+                keep.append(f)          # reported as KNOWN-FINDING; its witness lives in corpus/
+                continue
             f.case = runner.shrink(f.case, self.fails_like(f.kind, f.what, f.signature), feat.shrink_steps)
             self.annotate(f)
             keep.append(f)
